@@ -6,10 +6,11 @@ EXTENDS OutBoundary, TLC
 CONSTANTS Data,        \* payload alphabet
           MaxLen,      \* bytes per packet
           MaxPkts,     \* packets
-          Strobes      \* subset of {"c", "x"}: which input strobes the environment uses
+          Strobes,     \* subset of {"c", "x"}: which input strobes the environment uses
+          MaxResets    \* number of domain resets
 
-VARIABLE npk
-mcvars == <<vars, npk>>
+VARIABLES npk, nrst
+mcvars == <<vars, npk, nrst>>
 
 MCInputs ==
     LET cs == IF "c" \in Strobes THEN BOOLEAN ELSE {FALSE}
@@ -27,7 +28,7 @@ MCOutputs(i) ==
         n, l, c, x \in BOOLEAN}
 
 Do(i, o) == /\ Legal(i) /\ Failing(i, o) = "ok" /\ Step(i, o)
-            /\ npk' = npk + (IF Rise(i) THEN 1 ELSE 0)
+            /\ npk' = npk + (IF Rise(i) THEN 1 ELSE 0) /\ UNCHANGED nrst
 
 MidBeat     == \E i \in MCInputs : \E o \in MCOutputs(i) : OBeat(o) /\ ~o.l /\ Do(i, o)
 LastBeat    == \E i \in MCInputs : \E o \in MCOutputs(i) : OBeat(o) /\ o.l /\ Do(i, o)
@@ -35,7 +36,11 @@ CompleteOut == \E i \in MCInputs : \E o \in MCOutputs(i) : o.c /\ Do(i, o)
 InvalidOut  == \E i \in MCInputs : \E o \in MCOutputs(i) : o.x /\ Do(i, o)
 Quiet       == \E i \in MCInputs : \E o \in MCOutputs(i) : ~OBeat(o) /\ ~o.c /\ ~o.x /\ Do(i, o)
 
-MCInit == Init /\ npk = 0
-MCNext == MidBeat \/ LastBeat \/ CompleteOut \/ InvalidOut \/ Quiet
+DomainReset == /\ nrst < MaxResets /\ ResetLegal(NoIn)
+               /\ \E o \in MCOutputs(NoIn) : Failing(NoIn, o) = "ok" /\ ResetStep(NoIn, o)
+               /\ nrst' = nrst + 1 /\ UNCHANGED npk
+
+MCInit == Init /\ npk = 0 /\ nrst = 0
+MCNext == MidBeat \/ LastBeat \/ CompleteOut \/ InvalidOut \/ Quiet \/ DomainReset
 MCSpec == MCInit /\ [][MCNext]_mcvars
 =============================================================================
